@@ -121,8 +121,8 @@ def poll (L : Layout) (st : Lds) : PollOut × Lds :=
 
 /-- What `Query::execute` learns from its input before the MPC protocol starts. -/
 inductive InputOutcome where
-  /-- `n` reports decrypted (`n ≤ query_size`); the protocol runs on them -/
-  | accepted (n : Nat)
+  /-- the reports decrypted (at most `query_size`), in order; the protocol runs on them -/
+  | accepted (rs : List PlainReport)
   /-- `Error::Io(_)` from the length-delimited framing / `try_from` -/
   | ioErr (e : StreamErr)
   /-- `Error::InvalidHybridReport(_)` from `decrypt` -/
@@ -132,21 +132,21 @@ inductive InputOutcome where
 
 /-- decrypt the items of one poll in order while fewer than `sz` reports were taken -/
 def takeItems {K : Type} (A : AEAD K) (reg : Nat → Option K) (L : Layout) (sz : Nat) :
-    List EncReport → Nat → InputOutcome
+    List EncReport → List PlainReport → InputOutcome
   | [], acc => .accepted acc
   | r :: rs, acc =>
-    if acc ≥ sz then .accepted acc
+    if acc.length ≥ sz then .accepted acc
     else match decrypt A reg L r with
-      | .ok _ => takeItems A reg L sz rs (acc + 1)
+      | .ok p => takeItems A reg L sz rs (acc ++ [p])
       | .err e => .reportErr e
       | .panic t => .panic t
 
 /-- `….take(sz)` consumed by `reshard_aad`: poll until `sz` reports are in, the stream ends or errs. -/
 def pullLoop {K : Type} (A : AEAD K) (reg : Nat → Option K) (L : Layout) (sz : Nat) :
-    Nat → Lds → Nat → InputOutcome
+    Nat → Lds → List PlainReport → InputOutcome
   | 0, _, acc => .accepted acc
   | fuel + 1, st, acc =>
-    if acc ≥ sz then .accepted acc
+    if acc.length ≥ sz then .accepted acc
     else match poll L st with
       | (.items l, st) =>
         match takeItems A reg L sz l acc with
@@ -159,6 +159,6 @@ def pullLoop {K : Type} (A : AEAD K) (reg : Nat → Option K) (L : Layout) (sz :
 /-- The input phase of `Query::execute` on a body delivered as `chunks`. -/
 def queryInput {K : Type} (A : AEAD K) (reg : Nat → Option K) (L : Layout) (sz : Nat) (chunks : List Bytes) :
     InputOutcome :=
-  pullLoop A reg L sz (bufSize chunks + chunks.length + 2) { src := chunks } 0
+  pullLoop A reg L sz (bufSize chunks + chunks.length + 2) { src := chunks } []
 
 end IpaVerif.ReportWire
